@@ -20,7 +20,8 @@ THEOREMS = [
     'Pfst.C20.interleave', 'Pfst.C20.interleave_exec', 'Pfst.C20.stepVis_is_schedule',
     'Pfst.C20.real_tables_wf', 'Pfst.C20.real_set_invalid', 'Pfst.C20.real_block_restores_all',
 ]
-RULE = ('(a) check_options on random 1-4 key mappings over the probe domain (23 names x 47 values, both all=True and '
+RULE = ('(a) check_options on random 1-4 key mappings over the probe domain (23 names x 50 values incl. mutable list '
+        'values for `op`, both all=True and '
         'all=False) vs the table-driven model; (b) random option programs (get_option / edit call with per-call options / '
         'set_options / with options(): nested up to depth 3 / raise / try-except; invalid names and values at every key '
         'position, raises at every statement position) run on the real API in one thread, get_options() snapshot after '
@@ -31,7 +32,13 @@ RULE = ('(a) check_options on random 1-4 key mappings over the probe domain (23 
         'alone in a fresh thread, and with the big-step model; (d) direct evaluation of the property on every run '
         '(state unchanged by a rejected set/enter, block keys restored on normal and exceptional exit, no change by '
         'get/call, own options stable between own steps, registry empty after calls) plus free-running threads with a '
-        '1 microsecond switch interval vs solo results. distinct = distinct programs / mappings; non-trivial = the '
+        '1 microsecond switch interval vs solo results; (e) option OBJECTS: a program owns one object per mutable option '
+        'value and reuses it for every step; after every step each is compared by value with the pristine probe value, '
+        'get_options() is compared by value (type+repr coding) before/after every non-setting step, identical calls '
+        '(same edit, per-call codes, defaults) must give identical text; edits consuming `op`/`op_side` (Compare slices, '
+        'three identical insertions) and par()/unpar() variants followed by an unrelated edit of the same tree compared '
+        'with that edit run alone on the intermediate source; `_MODIFYING` must be empty after every API call (solo and '
+        'lock-step). distinct = distinct programs / mappings; non-trivial = the '
         'option store leaves the defaults or a validation error occurs')
 TRUSTED = [
     'modelled: fst_options.check_options (incl. the empty / "__options_checked" early return), set_options '
@@ -41,7 +48,10 @@ TRUSTED = [
     'not modelled: the text produced by an edit (the model predicts the options an edit call sees; the edit text is '
     'compared real-vs-real: alone vs concurrent, and implicit vs explicit options); the _MODIFYING registry is only '
     'checked directly (empty after every call, concurrent = solo), its reentrancy counter belongs to C12',
-    'not modelled: values outside the probe domain (the table is extensional on 47 probe values); validation of '
+    'not modelled: aliasing of mutable option objects: option values are immutable data in the model (getOption/call '
+    'provably leave the stored values alone, percall_no_leak); that a call does not mutate the object it was handed, or '
+    'the object held in the thread default store, is covered only by the by-value/deep-copy checks of the harness',
+    'not modelled: values outside the probe domain (the table is extensional on the probe values); validation of '
     'per-call options by edits is taken to be check_options(options) at entry (checked per call: an edit given options '
     'that check_options rejects must raise the same exception and leave its tree unchanged)',
     'a mapping containing the internal key "__options_checked" is not validated by check_options (modelled as the code '
@@ -178,7 +188,7 @@ def _reference_check(views):
         key = (eid, tuple(d.enc(v) for v in view.values()))
         if key not in _REF_CACHE:
             R.reset_options()
-            _REF_CACHE[key] = R.run_edit(eid, dict(view), None)
+            _REF_CACHE[key] = R.run_edit(eid, R.copy_opts(view), None)
         if _REF_CACHE[key] != res:
             bad.append([R.EDIT_NAMES[eid], {k: d.enc(v) for k, v in view.items()}, res[:120], _REF_CACHE[key][:120]])
     return bad
@@ -516,7 +526,7 @@ def _doc_multi(ctx, rng, n):
                             ran = True
                     else:
                         r = R.run_edit(eid, dict(kw), None)
-                        if r.startswith('EXC ValueError: invalid'):
+                        if 'EXC ValueError: invalid' in r:
                             raise ValueError(r)
                     rejected = False
                 except ValueError:
@@ -571,6 +581,26 @@ def _shape_programs(rng, n):
             eid = rng.randrange(len(R.EDITS))
             out.append([pre, ['call', [], eid], ['call', g.kvs('call', 0.0), eid], ['call', [], eid],
                         ['catch', [['call', g.kvs('call', 0.9), eid]]], ['call', [], eid]])
+    return out
+
+
+def _focus_programs():
+    """deterministic part: every mutable option value (lists accepted by `op`) x every op_side x every Compare edit,
+    as a per-call object reused by three identical calls, as a block default and as a set default; every edit of the
+    catalogue twice in a row with no options"""
+    d = R.dom()
+    g = R.Gen(random.Random(0), tables())
+    out = []
+    for L in g.op_lists:
+        for side in g.sides or [None]:
+            kv = [[g.n_op, L]] + ([[g.n_op_side, side]] if side is not None else [])
+            for e in R.CMP_IDS:
+                out.append([['call', kv, e], ['call', kv, e], ['call', kv, e]])
+                out.append([['block', kv, [['call', [], e], ['call', [], e], ['call', [], e]]], ['get', g.n_op, []]])
+                out.append([['set', kv], ['call', [], e], ['call', [], e], ['call', [], e], ['get', g.n_op, []]])
+                out.append([['catch', [['block', kv, [['call', kv[:1], e], ['raise']]]]], ['call', kv, e]])
+    for e in range(len(R.EDITS)):
+        out.append([['call', [], e], ['call', [], e]])
     return out
 
 
@@ -714,7 +744,7 @@ def _direct(ctx, scale):
     n_doc = _doc_sweep(ctx)
     ctx.notes['doc_domain_checks'] = n_doc
     _doc_multi(ctx, rng, int((150 if q else 1500) * scale))
-    progs = _shape_programs(rng, int((300 if q else 3000) * scale))
+    progs = _focus_programs() + _shape_programs(rng, int((300 if q else 3000) * scale))
     outs = pmap(_shape_case, progs)
     for p, o in zip(progs, outs):
         if 'harness_error' in o:
